@@ -92,6 +92,11 @@ func main() {
 		p.Expect = nil
 		out := checks.SafeExec(c, &p)
 		_ = json.NewEncoder(os.Stdout).Encode(map[string]interface{}{"out": out})
+	case "shrink":
+		if len(os.Args) < 4 {
+			usage()
+		}
+		os.Exit(checks.ShrinkFile(os.Args[2], os.Args[3], self))
 	case "dump":
 		// dump <plan.json>: run the steps without oracles, print the disk after every step
 		b, err := os.ReadFile(os.Args[2])
